@@ -237,6 +237,25 @@ theorem output_in_statement_order (env : Env) (src : Bytes)
   rw [h2, addStmts_frames _ h1]
   simp [st0]
 
+/-- … and a run stopped by a failing statement (statement `s` reports `e` at `loc` after the statements
+`pre` before it ran) has executed exactly the statements before the failing one — whether they are on
+earlier lines or on the line of `s`: it reports that error, its records are the frames of `pre`, in
+order, and (`file_exact_any_outcome`) its file is the header followed by exactly these records. -/
+theorem failed_run_output_in_statement_order (env : Env) (src : Bytes) (e : ErrKind) (loc : Loc)
+    (h : addStmts env (st0 none) (planOf src).batches.flatten = .err e loc) :
+    ∃ pre s post st1, (planOf src).batches.flatten = pre ++ s :: post ∧
+      addStmts env (st0 none) pre = .ok st1 ∧ addStmt env st1 s = .err e loc ∧
+      (processFile env none src).outcome = .failure e.cls (errDetail e) loc ∧
+      (processFile env none src).emitted = st1.emitted ∧
+      (processFile env none src).emitted.map (·.2) = runFrames env (st0 none) pre := by
+  obtain ⟨pre, s, post, st1, h1, h2, h3, h4⟩ := execFrom_stmt_err (fin := (planOf src).final) h
+  refine ⟨pre, s, post, st1, h1, h2, h3, ?_, ?_, ?_⟩ <;> rw [processFile_eq] <;> unfold execPlan <;> rw [h4]
+  · rfl
+  · rfl
+  · show st1.emitted.map (·.2) = _
+    rw [addStmts_frames _ h2]
+    simp [st0]
+
 /-- The same at the level of statement lists, for every start state. -/
 theorem statements_in_order (env : Env) (st st' : PState) (ss : List Stmt)
     (h : addStmts env st ss = .ok st') :
@@ -270,6 +289,17 @@ open Example in
 example : (execPlan env none ⟨[prog], none⟩).outcome = .success ∧
     (execPlan env none ⟨[prog], none⟩).emitted =
       [(320, frameA), (5000000640, frameA), (5000000952, frameB)] := by decide
+
+open Example in
+/-- a failing statement (`q;`, unknown name) in the same batch as `p;`: the record of `p;` is in the file
+the failed run leaves behind (hypothesis and conclusion of `failed_run_output_in_statement_order`) -/
+example : errOf (addStmts env (st0 none) (prog.take 4 ++ [.expr (.ref ⟨L 3 4, [], ["q"]⟩)] ++ prog.drop 4)) = some .name ∧
+    (execPlan env none ⟨[prog.take 4 ++ [.expr (.ref ⟨L 3 4, [], ["q"]⟩)] ++ prog.drop 4], none⟩).outcome =
+      .failure "Name" "" (L 3 4) ∧
+    (execPlan env none ⟨[prog.take 4 ++ [.expr (.ref ⟨L 3 4, [], ["q"]⟩)] ++ prog.drop 4], none⟩).emitted =
+      [(320, frameA)] ∧
+    (execPlan env none ⟨[prog.take 4 ++ [.expr (.ref ⟨L 3 4, [], ["q"]⟩)] ++ prog.drop 4], none⟩).file =
+      Pcap.header ++ Pcap.record 320 frameA := by decide
 
 open Example in
 /-- the reader recovers exactly these three records from that run's file -/
